@@ -49,7 +49,7 @@ def consulted_of(world):
 def veto_sets(world, model):
     from ..core import Rng
     cons = model["consulted"]
-    sets = [[p] for p in cons]
+    sets = [[cons[k]] for k in gen.enum_positions(len(cons), world.get("subset_seed", 1))]
     r = Rng(world.get("subset_seed", 1))
     if len(cons) >= 2:
         if model["masked"]:
